@@ -15,6 +15,21 @@
 (*    chain/entity.go:1760-1783: n <= 0 -> every sharder.                  *)
 (*    CutAtN = TRUE is the variant "exactly the first n", which needs the  *)
 (*    tie-break and is what makes the choice depend on SetIndex.           *)
+(*                                                                         *)
+(* Pool history of node 2 (Sharing = TRUE).  SetIndex is a field of the    *)
+(* *node.Node OBJECT (idx), rewritten by the last computeNodePositions of   *)
+(* ANY pool that holds the object.  Node 2 also adds some of its sharder   *)
+(* objects to the sharder pool of another magic block (ShareOther: idx of  *)
+(* the shared objects now is the position in THAT pool, i.e. stale for     *)
+(* pool 2), and is told about known sharders again (ReAdd2, the replace    *)
+(* path of Pool.AddNode node_pool.go:79-92, with the same object or a fresh *)
+(* one, which detaches the key from the other pool's object).              *)
+(*  slots2 = np.Nodes of pool 2 (a slice: it COULD hold a key twice),       *)
+(*  ReplaceByKey = TRUE: the slot of the known key is found by key (the     *)
+(*  code); FALSE: the slot is np.Nodes[SetIndex of the known object], the   *)
+(*  mistake that a stale SetIndex turns into a lost + a duplicated sharder. *)
+(*  The replicators of node 2 are computed from slots2 and idx as the code  *)
+(*  does (ScoreHash over CopyNodes, stable sort by (score, idx) desc).      *)
 (***************************************************************************)
 EXTENDS Integers, Sequences, FiniteSets, TLC
 
@@ -24,9 +39,18 @@ CONSTANTS Node,             \* member ids
           Scores,           \* possible hash scores of a sharder for the block
           NReps,            \* possible configured numbers of replicators
           IndexBySortedId, CutAtN,
-          CanonicalFirst    \* TRUE: pool1 is built in id order (halves the state space for C42)
-VARIABLES pool1, pool2, seed, score, nrep
-vars == <<pool1, pool2, seed, score, nrep>>
+          CanonicalFirst,   \* TRUE: pool1 is built in id order (halves the state space for C42)
+          Sharing,          \* TRUE: node 2 shares node objects with another pool and re-adds known sharders
+          ReplaceByKey,     \* TRUE: AddNode of a known key replaces the slot found by key
+          MaxReAdd          \* bound on the number of ReAdd2 steps
+VARIABLES pool1, pool2, seed, score, nrep,
+          slots2,           \* np.Nodes of pool 2
+          other,            \* np.Nodes of the other magic block's sharder pool (node 2's objects)
+          idx,              \* SetIndex field of node 2's object per key
+          detached,         \* keys whose pool-2 object was replaced by a fresh one (no longer the other pool's object)
+          readds
+hist2 == <<slots2, other, idx, detached, readds>>
+vars == <<pool1, pool2, seed, score, nrep, hist2>>
 
 Pos(s, x) == CHOOSE i \in 1..Len(s) : s[i] = x
 Members(p) == {p[i] : i \in 1..Len(p)}
@@ -46,15 +70,58 @@ Replicators(p, n) ==
   ELSE IF CutAtN THEN {m \in Members(p) : SortPos(p, m) <= n}
   ELSE {m \in Members(p) : score[m] >= NthScore(p, n)}
 
+\* ---- node 2 as the code keeps it: the Nodes slice and the per-object SetIndex
+Below(s, x) == Cardinality({i \in 1..Len(s) : IdLess(s[i], x)})
+AtMost(s, x) == Cardinality({i \in 1..Len(s) : ~IdLess(x, s[i])})
+SortedById(s) == [i \in 1..Len(s) |-> CHOOSE x \in Node : Below(s, x) < i /\ i <= AtMost(s, x)]
+\* computeNodePositions: sort the slice by id (unless the insertion-position variant), then SetIndex = slot
+Positioned(s) == IF IndexBySortedId THEN SortedById(s) ELSE s
+LastPos(s, x) == CHOOSE i \in 1..Len(s) : s[i] = x /\ \A j \in (i + 1)..Len(s) : s[j] # x
+Reindex(s, f, skip) == [x \in Node |-> IF x \in Members(s) \ skip THEN LastPos(s, x) - 1 ELSE f[x]]
+
+\* ScoreHash + IsInTop / IsInTopWithNodes over the slots of pool 2 (i, j are slots)
+BeforeI(i, j) == LET a == slots2[i]  b == slots2[j] IN
+                 \/ score[a] > score[b]
+                 \/ score[a] = score[b] /\ idx[a] > idx[b]
+                 \/ score[a] = score[b] /\ idx[a] = idx[b] /\ i < j           \* SliceStable
+SortPosI(i) == 1 + Cardinality({j \in 1..Len(slots2) : BeforeI(j, i)})
+NthScore2(n) == score[slots2[CHOOSE i \in 1..Len(slots2) : SortPosI(i) = n]]
+Replicators2(n) ==
+  IF n <= 0 THEN Members(slots2)
+  ELSE IF n > Len(slots2) THEN {}
+  ELSE IF CutAtN THEN {slots2[i] : i \in {j \in 1..Len(slots2) : SortPosI(j) <= n}}
+  ELSE {slots2[i] : i \in {j \in 1..Len(slots2) : score[slots2[j]] >= NthScore2(n)}}
+
 Init == /\ pool1 = <<>> /\ pool2 = <<>>
         /\ seed \in Seeds /\ score \in [Node -> Scores] /\ nrep \in NReps
+        /\ slots2 = <<>> /\ other = <<>> /\ idx = [x \in Node |-> 0] /\ detached = {} /\ readds = 0
 Add1(m) == /\ m \notin Members(pool1)
            /\ (CanonicalFirst => \A x \in Node : IdLess(x, m) => x \in Members(pool1))
-           /\ pool1' = Append(pool1, m) /\ UNCHANGED <<pool2, seed, score, nrep>>
-Add2(m) == m \notin Members(pool2) /\ pool2' = Append(pool2, m) /\ UNCHANGED <<pool1, seed, score, nrep>>
+           /\ pool1' = Append(pool1, m) /\ UNCHANGED <<pool2, seed, score, nrep, hist2>>
+Add2(m) == /\ m \notin Members(pool2) /\ pool2' = Append(pool2, m)
+           /\ slots2' = Positioned(Append(slots2, m))
+           /\ idx' = Reindex(slots2', idx, {})
+           /\ UNCHANGED <<pool1, seed, score, nrep, other, detached, readds>>
+\* the object of sharder m (already in pool 2) is also added to the other magic block's pool
+ShareOther(m) == /\ Sharing /\ m \in Members(pool2) /\ m \notin Members(other)
+                 /\ other' = Positioned(Append(other, m))
+                 /\ idx' = Reindex(other', idx, detached)
+                 /\ UNCHANGED <<pool1, pool2, seed, score, nrep, slots2, detached, readds>>
+\* AddNode(pool 2, m) for a key the pool knows; fresh = a new node object for the key
+ReAdd2(m, fresh) ==
+  /\ Sharing /\ m \in Members(pool2) /\ readds < MaxReAdd
+  /\ LET slot == IF ReplaceByKey THEN Pos(slots2, m) ELSE idx[m] + 1 IN
+       /\ slot \in 1..Len(slots2)                       \* (otherwise the variant panics)
+       /\ slots2' = Positioned([slots2 EXCEPT ![slot] = m])
+  /\ idx' = Reindex(slots2', idx, {})
+  /\ detached' = IF fresh THEN detached \cup {m} ELSE detached
+  /\ readds' = readds + 1
+  /\ UNCHANGED <<pool1, pool2, seed, score, nrep, other>>
 A_Add1 == \E m \in Node : Add1(m)
 A_Add2 == \E m \in Node : Add2(m)
-Next == A_Add1 \/ A_Add2
+A_ShareOther == \E m \in Node : ShareOther(m)
+A_ReAdd2 == \E m \in Node : \E fresh \in BOOLEAN : ReAdd2(m, fresh)
+Next == A_Add1 \/ A_Add2 \/ A_ShareOther \/ A_ReAdd2
 Spec == Init /\ [][Next]_vars
 
 Same == Members(pool1) = Members(pool2)
@@ -66,7 +133,11 @@ TypeOK == \A s \in Seeds : \A n \in 1..Cardinality(Node) :
 C35_RankSame == Same => \A m \in Members(pool1) : RankOf(pool1, m) = RankOf(pool2, m)
 C35_RankPermutation == {RankOf(pool1, m) : m \in Members(pool1)} = 0..(N - 1)
 
-C42_SameSet == Same => Replicators(pool1, nrep) = Replicators(pool2, nrep)
-C42_AtLeastN == (nrep > 0 /\ Len(pool2) >= nrep) => Cardinality(Replicators(pool2, nrep)) >= nrep
-C42_AllWhenDisabled == nrep <= 0 => Replicators(pool2, nrep) = Members(pool2)
+C42_SameSet == Same => Replicators(pool1, nrep) = Replicators2(nrep)
+C42_AtLeastN == (nrep > 0 /\ Len(pool2) >= nrep) => Cardinality(Replicators2(nrep)) >= nrep
+C42_AllWhenDisabled == nrep <= 0 => Replicators2(nrep) = Members(pool2)
+\* model sanity: without a history node 2's slice/SetIndex view is the declarative one; with the code's
+\* replace-by-key the slice holds every sharder exactly once, whatever the history
+M_NoHistorySame == (other = <<>> /\ readds = 0) => Replicators2(nrep) = Replicators(pool2, nrep)
+M_Pool2EachOnce == ReplaceByKey => (Len(slots2) = Len(pool2) /\ Members(slots2) = Members(pool2))
 =============================================================================
